@@ -132,6 +132,9 @@ def b_int(ex, args, kwargs, line):
         return wrap(py_int(v.t))
     if isinstance(v, SFloat):
         ex.notes.add("int(float): uninterpreted truncation f2i")
+        hook = getattr(ex.ctx, "int_of_float", None)
+        if hook is not None:
+            hook(ex, v.t)  # a contract may attach a (listed) fact about this particular truncation
         return wrap(f2i(v.t))
     if isinstance(v, float):
         return int(v)
@@ -164,6 +167,19 @@ def b_abs(ex, args, kwargs, line):
         return abs(v)
     t = as_int_term(v)
     return wrap(z3.If(t >= 0, t, -t))
+
+
+def b_round(ex, args, kwargs, line):
+    v = args[0]
+    if len(args) == 1 and not kwargs:
+        if isinstance(v, (int, float)) and not isinstance(v, bool):
+            return round(v)
+        if isinstance(v, (SInt, SBool)):
+            return wrap(as_int_term(v))  # round(int) is the int itself
+    hook = getattr(ex.ctx, "round_hook", None)
+    if hook is not None:
+        return hook(ex, args, kwargs, line)
+    raise Unsupported(f"round() of {type(v).__name__} at L{line}")
 
 
 def _minmax(ismax):
@@ -386,6 +402,7 @@ def b_struct_unpack(ex, args, kwargs, line):
 
 
 _B = {
+    "round": b_round,
     "len": b_len, "range": b_range, "enumerate": b_enumerate, "reversed": b_reversed, "zip": b_zip, "ord": b_ord,
     "chr": b_chr, "str": b_str, "int": b_int, "bool": b_bool, "float": b_float, "abs": b_abs,
     "min": _minmax(False), "max": _minmax(True), "isinstance": b_isinstance, "type": b_type, "list": b_list,
